@@ -373,7 +373,9 @@ func c06Run(seq []string, viaHandler bool) (viol []string, applicable bool, even
 	for _, rd := range readers {
 		rd.rd.Close()
 	}
-	deadline := time.Now().Add(30 * time.Millisecond)
+	// generous: in correct code every instance is closed within microseconds and the loop exits at once;
+	// only a real leak waits this long (a loaded machine must not turn scheduling delay into a verdict)
+	deadline := time.Now().Add(8 * time.Second)
 	for {
 		releaseLate() // a reload goroutine that was scheduled late registers its block only now
 		allClosed := true
@@ -446,6 +448,9 @@ func runC06(r *report.Run) {
 		work <- append([]string{}, seq...)
 	}
 	exec := func(seq []string) {
+		if r.Violations() >= 20 {
+			return // enough witnesses; every further leaking sequence would only wait out the settle deadline
+		}
 		for _, via := range []bool{false, true} {
 			viol, ok, ev := c06Run(seq, via)
 			atomic.AddInt64(&total, 1)
